@@ -34,7 +34,7 @@ import json
 import os
 import re
 
-from vlib import aslrun, build, drvrender, drvrun, tlc
+from vlib import aslrun, build, drvrun, tlc
 from vlib.aslrun import INCLUDE
 from vlib.common import CheckError, Phase, log, rng
 from vlib.report import Report
@@ -392,7 +392,6 @@ def selftest(tier):
     """binding demonstration: (a) corrupted hook traces are rejected by Driver_Trace, (b) stored mutations of the
     anchored code (selftest/b218_mutants.py, applied to scratch copies of the repository) make this check report
     VIOLATION.  quick: 3 mutants, thorough: all of this property."""
-    import subprocess
     import sys
     ok = True
     sys.path.insert(0, os.path.join(os.path.dirname(os.path.dirname(os.path.abspath(__file__))), "selftest"))
